@@ -1,4 +1,4 @@
-import HmsProofs.Lemmas.SimHStmt
+import HmsProofs.Lemmas.SimHTry
 /-!
 # Single statements of the general fragment
 -/
@@ -6,18 +6,21 @@ namespace HmsProofs.Sim
 open Hms.Core Hms.Core.Comp Hms.Core.VM
 
 /-- Inversion of `okGS` on expression statements. -/
-theorem okGS_exprS_inv (il : Bool) (sp : Span) (e : Expr) (h : Frag.okGS il (.exprS sp e) = true) :
+theorem okGS_exprS_inv (il rt : Bool) (sp : Span) (e : Expr) (h : Frag.okGS il rt (.exprS sp e) = true) :
     (∃ asp op isp ity name isFn r,
       e = .assign asp op (.ident isp ity name false isFn false) r ∧ Frag.okGE r = true ∧
       (∀ o, op = some o → Frag.isLogical o = false)) ∨
     (∃ isp ty c t eb, e = .ifE isp ty c t (some eb) ∧ ty.isNull = true ∧ Frag.okGE c = true ∧
-      Frag.okGBS il t = true ∧ Frag.okGBS il eb = true) ∨
-    (∃ isp ty c t, e = .ifE isp ty c t none ∧ ty.isNull = true ∧ Frag.okGE c = true ∧ Frag.okGBS il t = true) ∨
+      Frag.okGBS il rt t = true ∧ Frag.okGBS il rt eb = true) ∨
+    (∃ isp ty c t, e = .ifE isp ty c t none ∧ ty.isNull = true ∧ Frag.okGE c = true ∧ Frag.okGBS il rt t = true) ∨
     (∃ csp cty isp ity name g f si args sw, e = .call csp cty (.ident isp ity name g f si) args sw ∧
       ((name = "println" ∧ cty.isNull = true ∧ sw = false ∧ Frag.okGArgs args = true ∧
           Frag.oneNonAtom args = true ∧ args.length < 2 ^ 64) ∨
-       (name ≠ "println" ∧ cty.isNull = false ∧
-          Frag.okGE (.call csp cty (.ident isp ity name g f si) args sw) = true))) := by
+       (name ≠ "println" ∧ name ≠ "throw" ∧ cty.isNull = false ∧
+          Frag.okGE (.call csp cty (.ident isp ity name g f si) args sw) = true) ∨
+       (name = "throw" ∧ sw = false ∧ ∃ a, args = [a] ∧ Frag.atomE a.2 = true))) ∨
+    (∃ tsp ty t ci c, e = .tryE tsp ty t ci c ∧ ty.isNull = true ∧ Frag.okGBS false false t = true ∧
+      Frag.okGBS il rt c = true) := by
   cases e <;> try (simp [Frag.okGS] at h; done)
   case assign asp op l r =>
     left
@@ -40,20 +43,37 @@ theorem okGS_exprS_inv (il : Bool) (sp : Span) (e : Expr) (h : Frag.okGS il (.ex
       simp only [Frag.okGS, Bool.and_eq_true] at h
       exact ⟨isp, ty, c, t, rfl, h.1.1, h.1.2, h.2⟩
   case call csp cty base args sw =>
-    right; right; right
+    right; right; right; left
     cases base <;> try (simp [Frag.okGS] at h; done)
     rename_i isp ity name g f si
     refine ⟨csp, cty, isp, ity, name, g, f, si, args, sw, rfl, ?_⟩
     simp only [Frag.okGS] at h
-    by_cases hn : name = "println"
-    · left
-      simp only [hn, beq_self_eq_true, if_true, Bool.and_eq_true, Bool.not_eq_eq_eq_not, Bool.not_true,
-        decide_eq_true_eq] at h
-      exact ⟨hn, h.1.1.1.1, h.1.1.1.2, h.1.1.2, h.1.2, h.2⟩
-    · right
-      have : (name == "println") = false := by simpa using hn
-      simp only [this, Bool.false_eq_true, if_false, Bool.and_eq_true, Bool.not_eq_eq_eq_not, Bool.not_true] at h
-      exact ⟨hn, h.1, h.2⟩
+    by_cases ht : name = "throw"
+    · right; right
+      simp only [ht, beq_self_eq_true, if_true, Bool.and_eq_true, Bool.not_eq_eq_eq_not, Bool.not_true,
+        decide_eq_true_eq, List.all_eq_true] at h
+      obtain ⟨⟨hsw, hlen⟩, hat⟩ := h
+      cases args with
+      | nil => simp at hlen
+      | cons a as =>
+        cases as with
+        | cons _ _ => simp at hlen
+        | nil => exact ⟨ht, hsw, a, rfl, hat a (by simp)⟩
+    · have ht' : (name == "throw") = false := by simpa using ht
+      simp only [ht', Bool.false_eq_true, if_false] at h
+      by_cases hn : name = "println"
+      · left
+        simp only [hn, beq_self_eq_true, if_true, Bool.and_eq_true, Bool.not_eq_eq_eq_not, Bool.not_true,
+          decide_eq_true_eq] at h
+        exact ⟨hn, h.1.1.1.1, h.1.1.1.2, h.1.1.2, h.1.2, h.2⟩
+      · right; left
+        have : (name == "println") = false := by simpa using hn
+        simp only [this, Bool.false_eq_true, if_false, Bool.and_eq_true, Bool.not_eq_eq_eq_not, Bool.not_true] at h
+        exact ⟨hn, ht, h.1, h.2⟩
+  case tryE tsp ty t ci c =>
+    right; right; right; right
+    simp only [Frag.okGS, Bool.and_eq_true] at h
+    exact ⟨tsp, ty, t, ci, c, rfl, h.1.1, h.1.2, h.2⟩
 
 theorem evalList_length (cfg : Cfg) : ∀ (fuel : Nat) (es : List Expr) (st st' : St) (vs : List Val),
     evalList cfg fuel es st = (.ok vs, st') → vs.length = es.length := by
@@ -96,7 +116,8 @@ theorem Act.OK.cell {G : GCtx} {A : Act} (hA : A.OK G) (m : String) (hm : A.N m)
 /-- `let`, assignments, `return`, `break`, `continue`, call statements, `println`, `if`;
 loops through `PGL`. -/
 theorem pgs_step (G : GCtx) (hG : G.OK) (n : Nat) (hPE : ∀ m, m ≤ n → PE G m) (hPArgsLow : ∀ m, m + 2 = n → PArgs G m)
-    (hPL : PGL G n) (hPBlow : ∀ m, m + 1 = n → PGBS G m) : PGS G (n + 1) := by
+    (hPL : PGL G n) (hPBlow : ∀ m, m + 1 = n → PGBS G m)
+    (hTry : ∀ m, m + 1 = n → ∀ hs, PGBS (G.withH hs) m) (hPSsLow : ∀ m, m + 2 = n → PGSs G m) : PGS G (n + 1) := by
   intro A hA loops lscopes d st env spec ip stk mem hs hT hws hN hpl hd hls hrel hsp
   have hPEn := hPE n (Nat.le_refl n)
   cases st
@@ -119,7 +140,7 @@ theorem pgs_step (G : GCtx) (hG : G.OK) (n : Nat) (hPE : ∀ m, m ≤ n → PE G
     rcases hev : evalExpr G.cfg n e spec with ⟨r1, st1⟩
     rw [hev] at h1
     cases r1 with
-    | error ce' => cases ce' <;> first | trivial | exact h1.elim | exact h1
+    | error ce' => exact SimGS.of_exprError _ hrel hls h1
     | ok v =>
       obtain ⟨hfr, mem1, hrun, hml⟩ := h1
       have hcell := hA.cell _ hNm
@@ -148,7 +169,8 @@ theorem pgs_step (G : GCtx) (hG : G.OK) (n : Nat) (hPE : ∀ m, m ≤ n → PE G
     cases oe with
     | none => simp [Frag.okGS] at hs
     | some e =>
-      simp only [Frag.okGS] at hs
+      simp only [Frag.okGS, Bool.and_eq_true] at hs
+      obtain ⟨hrt, hs⟩ := hs
       simp only [Frag.wsGS, Bool.and_eq_true] at hws
       simp only [Frag.identsGS] at hT
       simp only [cgS, hrel.key, Option.getD_some] at hN hpl ⊢
@@ -161,10 +183,10 @@ theorem pgs_step (G : GCtx) (hG : G.OK) (n : Nat) (hPE : ∀ m, m ≤ n → PE G
       rcases hev : evalExpr G.cfg n e spec with ⟨r1, st1⟩
       rw [hev] at h1
       cases r1 with
-      | error ce' => cases ce' <;> first | trivial | exact h1.elim | exact h1
+      | error ce' => exact SimGS.of_exprError _ hrel hls h1
       | ok v =>
         obtain ⟨hfr, mem1, hrun, hml⟩ := h1
-        refine ⟨by rw [hfr], mem1, hrun.trans (Runs.of_runsTo (RunsTo.of_exec1 (fun k =>
+        refine ⟨hrt, by rw [hfr], mem1, hrun.trans (Runs.of_runsTo (RunsTo.of_exec1 (fun k =>
           reach_jump G.code G.lim (baseOf G.s A.fn A.rest A.mp st1.world) _ k _ mem1 ⟨A.fn, 0⟩ A.rest A.c rfl
             hA.code (A.lab A.cl) sp ijmp))), hml.mono (by omega)⟩
   case brk sp =>
@@ -195,7 +217,7 @@ theorem pgs_step (G : GCtx) (hG : G.OK) (n : Nat) (hPE : ∀ m, m ≤ n → PE G
       rw [hls]; exact hrel.rel.scopes.drop d
   case whileS sp cnd body =>
     rw [evalStmt_while]
-    have h := hPL A hA loops lscopes d sp (some cnd) body env spec ip stk mem hs hT hws hN hpl hrel hsp
+    have h := hPL A hA loops lscopes d sp (some cnd) body env spec ip stk mem hs hT hws hN hpl hls hrel hsp
     simp only [] at h
     rcases hl : loopRun G.cfg n (some cnd) body spec with ⟨r1, st1⟩
     rw [hl] at h
@@ -210,7 +232,7 @@ theorem pgs_step (G : GCtx) (hG : G.OK) (n : Nat) (hPE : ∀ m, m ≤ n → PE G
       exact hq.vm_mono ((cgS_vm_mono G.mod A.src A.φ _).1 loops _ env (Nat.le_refl _))
   case loopS sp body =>
     rw [evalStmt_loop]
-    have h := hPL A hA loops lscopes d sp none body env spec ip stk mem hs hT hws hN hpl hrel hsp
+    have h := hPL A hA loops lscopes d sp none body env spec ip stk mem hs hT hws hN hpl hls hrel hsp
     simp only [] at h
     rcases hl : loopRun G.cfg n none body spec with ⟨r1, st1⟩
     rw [hl] at h
@@ -224,9 +246,9 @@ theorem pgs_step (G : GCtx) (hG : G.OK) (n : Nat) (hPE : ∀ m, m ≤ n → PE G
       rw [hsc]
       exact hq.vm_mono ((cgS_vm_mono G.mod A.src A.φ _).1 loops _ env (Nat.le_refl _))
   case exprS sp e =>
-    rcases okGS_exprS_inv _ sp e hs with ⟨asp, op, isp, ity, name, isFn, r, rfl, hr, hlog⟩ |
+    rcases okGS_exprS_inv _ _ sp e hs with ⟨asp, op, isp, ity, name, isFn, r, rfl, hr, hlog⟩ |
       ⟨isp, ty, cnd, t, eb, rfl, hty, hcnd, ht, heb⟩ | ⟨isp, ty, cnd, t, rfl, hty, hcnd, ht⟩ |
-      ⟨csp, cty, isp, ity, name, g, f, si, args, sw, rfl, hcall⟩
+      ⟨csp, cty, isp, ity, name, g, f, si, args, sw, rfl, hcall⟩ | ⟨tsp, tty, tb, ci, cb, rfl, htty, htb, hcb⟩
     · -- assignments
       simp only [Frag.wsGS, Bool.and_eq_true] at hws
       obtain ⟨hname, hwr⟩ := hws
@@ -262,7 +284,7 @@ theorem pgs_step (G : GCtx) (hG : G.OK) (n : Nat) (hPE : ∀ m, m ≤ n → PE G
         rcases hev : evalExpr G.cfg (n' + 1) r spec with ⟨r1, st1⟩
         rw [hev] at h1
         cases r1 with
-        | error ce' => cases ce' <;> first | trivial | exact h1.elim | exact h1
+        | error ce' => exact SimGS.of_exprError _ hrel hls h1
         | ok v =>
           obtain ⟨hfr, mem1, hrun, hml⟩ := h1
           have hrel1 : GRel G A env.scopes env.vm st1.scopes mem1 := by rw [hfr]; exact hrel.memLe hml
@@ -298,7 +320,8 @@ theorem pgs_step (G : GCtx) (hG : G.OK) (n : Nat) (hPE : ∀ m, m ≤ n → PE G
         rw [hev] at h1
         cases r1 with
         | error ce' =>
-          cases ce' <;> first | trivial | exact h1.elim | exact fun hk => hget.fatal (h1 hk)
+          exact SimGS.of_exprError _ hrel hls
+            (SimGE.error_after (st0 := spec) (nI cr.1) [⟨cur, none⟩] hget (by cases spec; rfl) (MemLe.refl _ _) h1)
         | ok b =>
           obtain ⟨hfr, mem1, hrun, hml⟩ := h1
           simp only []
@@ -373,7 +396,7 @@ theorem pgs_step (G : GCtx) (hG : G.OK) (n : Nat) (hPE : ∀ m, m ≤ n → PE G
       rcases hev : evalExpr G.cfg m cnd spec with ⟨r1, st1⟩
       rw [hev] at h1
       cases r1 with
-      | error ce' => cases ce' <;> first | trivial | exact h1.elim | exact h1
+      | error ce' => exact SimGS.of_exprError _ hrel hls h1
       | ok v =>
         obtain ⟨hfr, mem1, hrun, hml⟩ := h1
         have hsp1 := hsp.world st1 hfr
@@ -462,7 +485,7 @@ theorem pgs_step (G : GCtx) (hG : G.OK) (n : Nat) (hPE : ∀ m, m ≤ n → PE G
       rcases hev : evalExpr G.cfg m cnd spec with ⟨r1, st1⟩
       rw [hev] at h1
       cases r1 with
-      | error ce' => cases ce' <;> first | trivial | exact h1.elim | exact h1
+      | error ce' => exact SimGS.of_exprError _ hrel hls h1
       | ok v =>
         obtain ⟨hfr, mem1, hrun, hml⟩ := h1
         have hsp1 := hsp.world st1 hfr
@@ -499,13 +522,15 @@ theorem pgs_step (G : GCtx) (hG : G.OK) (n : Nat) (hPE : ∀ m, m ≤ n → PE G
           exact hrel1.vm_mono hvmT
     · -- calls as statements
       simp only [Frag.identsGS, List.mem_cons] at hT
-      rcases hcall with ⟨rfl, hcty, rfl, hoa, hone, hlen⟩ | ⟨hnp, hcty, hokc⟩
+      have hpnt : ("println" == "throw") = false := by decide
+      rcases hcall with ⟨rfl, hcty, rfl, hoa, hone, hlen⟩ | ⟨hnp, hnt, hcty, hokc⟩ | ⟨rfl, rfl, a, rfl, hat⟩
       · -- `println(…)`
-        simp only [Frag.wsGS, beq_self_eq_true, if_true, Bool.and_eq_true] at hws
+        simp only [Frag.wsGS, hpnt, Bool.false_eq_true, if_false, beq_self_eq_true, if_true, Bool.and_eq_true] at hws
         obtain ⟨⟨hρp, hφp⟩, hwa⟩ := hws
         have hpT : "println" ∈ A.T := hT _ (Or.inl rfl)
         have hTa : ∀ x ∈ Frag.namesGArgs args, x ∈ A.T := fun x hx => hT x (Or.inr hx)
-        simp only [cgS, beq_self_eq_true, if_true, codeVars_append, List.mem_append] at hN hpl ⊢
+        simp only [cgS, hpnt, Bool.false_eq_true, if_false, beq_self_eq_true, if_true, codeVars_append,
+          List.mem_append] at hN hpl ⊢
         generalize hCA : cgArgs G.mod (ρS env.scopes) A.φ args env.lm = CA at hN hpl ⊢
         obtain ⟨hplA, hplR⟩ := hpl.append
         obtain ⟨iglob, hplR⟩ := hplR.instr (i := .getGlob "println") rfl
@@ -541,7 +566,7 @@ theorem pgs_step (G : GCtx) (hG : G.OK) (n : Nat) (hPE : ∀ m, m ≤ n → PE G
           rw [hea] at h1
           rw [hea]
           cases r1 with
-          | error c1 => cases c1 <;> first | trivial | exact h1.elim | exact h1
+          | error c1 => exact SimGS.of_argsError _ hrel hls h1
           | ok vals =>
             obtain ⟨hfr, mem1, hrun, hml⟩ := h1
             simp only []
@@ -572,9 +597,10 @@ theorem pgs_step (G : GCtx) (hG : G.OK) (n : Nat) (hPE : ∀ m, m ≤ n → PE G
               rw [hfr]; exact hrelm
       · -- a user function, result dropped
         have hnp' : (name == "println") = false := by simpa using hnp
-        simp only [Frag.wsGS, hnp', Bool.false_eq_true, if_false, Bool.and_eq_true] at hws
+        have hnt' : (name == "throw") = false := by simpa using hnt
+        simp only [Frag.wsGS, hnp', hnt', Bool.false_eq_true, if_false, Bool.and_eq_true] at hws
         obtain ⟨⟨hρn, hφn⟩, hwa⟩ := hws
-        simp only [cgS, hnp', Bool.false_eq_true, if_false, codeVars_append, List.mem_append] at hN hpl ⊢
+        simp only [cgS, hnp', hnt', Bool.false_eq_true, if_false, codeVars_append, List.mem_append] at hN hpl ⊢
         generalize hCE : cgE G.mod (ρS env.scopes) A.φ (.call csp cty (.ident isp ity name g f si) args sw) env.lm = CE
           at hN hpl ⊢
         obtain ⟨hplE, hplD⟩ := hpl.append
@@ -596,7 +622,7 @@ theorem pgs_step (G : GCtx) (hG : G.OK) (n : Nat) (hPE : ∀ m, m ≤ n → PE G
         rcases hev : evalExpr G.cfg n (.call csp cty (.ident isp ity name g f si) args sw) spec with ⟨r1, st1⟩
         rw [hev] at h1
         cases r1 with
-        | error ce' => cases ce' <;> first | trivial | exact h1.elim | exact h1
+        | error ce' => exact SimGS.of_exprError _ hrel hls h1
         | ok v =>
           obtain ⟨hfr, mem1, hrun, hml⟩ := h1
           refine ⟨by rw [hfr], mem1, (hrun.trans (Runs.of_runsTo (RunsTo.of_exec1 (fun k =>
@@ -604,5 +630,212 @@ theorem pgs_step (G : GCtx) (hG : G.OK) (n : Nat) (hPE : ∀ m, m ≤ n → PE G
               hA.code sp ⟨v, none⟩ idrop)))).cast ?_, hml.mono (by omega), ?_⟩
           · rw [nI_append, nI_instr _ _ _ rfl]; simp only [nI_nil]; omega
           · rw [hfr]; exact hrel.memLe hml
+      · -- `throw(a)` with an atom `a`
+        simp only [Frag.wsGS, beq_self_eq_true, if_true, Bool.and_eq_true] at hws
+        obtain ⟨⟨hρp, hφp⟩, hwa⟩ := hws
+        have hpT : "throw" ∈ A.T := hT _ (Or.inl rfl)
+        simp only [cgS, beq_self_eq_true, if_true, codeVars_append, List.mem_append] at hN hpl ⊢
+        generalize hCA : cgArgs G.mod (ρS env.scopes) A.φ [a] env.lm = CA at hN hpl ⊢
+        generalize hD : (if cty.isNull = true then ([] : SCode) else [(Instr.drop, sp)]) = D at hN hpl ⊢
+        obtain ⟨hplAT, _⟩ := hpl.append
+        obtain ⟨hplA, hplT⟩ := hplAT.append
+        obtain ⟨ithrow, _⟩ := hplT.instr (i := .throw) rfl
+        rw [evalStmt_exprS]
+        have hall : allAtoms [a] = true := by simp [allAtoms, hat]
+        obtain ⟨hvs, hcs⟩ := varsG_atoms [a] hall
+        simp only [Frag.wsGArgs, Bool.and_eq_true] at hwa
+        obtain ⟨vals, hvals1, hvals2⟩ := atoms_run G A hA spec mem env.scopes env.vm hrel.rel [a] ip stk env.lm hall
+          (by rw [← hvs]; exact hwa.1)
+          (fun x hx => hT x (Or.inr (by rw [← hvs] at hx; simp [Frag.namesGArgs, hx]))) (hCA ▸ hplA)
+        rw [hCA] at hvals2
+        match n, hPE, hPArgsLow, hPL, hPBlow, hPEn with
+        | 0, _, _, _, _, _ => rw [evalExpr]; trivial
+        | 1, _, _, _, _, _ => rw [evalExpr_call, evalCall]; trivial
+        | 2, _, _, _, _, _ => rw [evalExpr_call, evalCall_step, evalExpr]; trivial
+        | c + 3, _, _, _, _, _ =>
+          have hlk := hrel.rel.scopes.lookup A.T A.σ G.lim A.mp "throw" hpT
+          have hρp' : ρS env.scopes "throw" = none := by simpa using hρp
+          rw [hρp'] at hlk
+          have hlsn : lookupScopes "throw" spec.scopes = none := by
+            cases hl : lookupScopes "throw" spec.scopes with
+            | none => rfl
+            | some v => simp [hl] at hlk
+          have hgl : spec.globals.lookup (spec.module, "throw") = none := by rw [hsp.globals]; rfl
+          have hid := evalExpr_builtinIdent G.cfg c isp ity "throw" g f si spec hlsn hgl
+            (by rw [hsp.module]; exact hG.noThrowFn) (by decide)
+          rw [evalExpr_call, evalCall_step, hid]
+          simp only []
+          rcases hvals1 spec rfl (c + 1) with hea | hea
+          · rw [show List.map (fun x : String × Expr => x.snd) [a] = List.map (fun x => x.snd) [a] from rfl] at hea
+            rw [hea]; trivial
+          · rw [hea]
+            simp only []
+            have hlen := evalList_length G.cfg _ _ _ _ _ hea
+            cases vals with
+            | nil => simp at hlen
+            | cons v vs =>
+              cases vs with
+              | cons _ _ => simp at hlen
+              | nil =>
+                rw [applyFn_builtin, throw_run]
+                cases hd : display spec.heap 1000000 v with
+                | none => trivial
+                | some dmsg =>
+                  simp only []
+                  refine ⟨by cases spec; rfl, mem, ?_, MemLe.refl _ _, ?_⟩
+                  · intro k
+                    obtain ⟨k', e⟩ := hvals2 spec.world k
+                    refine ⟨k', _, [], ip + nI CA.1 + 1, A.mp, [], e, ?_⟩
+                    exact mkS_throw G.code G.lim G.s A.fn (ip + nI CA.1) A.rest A.mp (k + k') stk mem spec.world A.c
+                      hA.code csp v none dmsg ithrow hd
+                  · rw [hls]; exact hrel.rel.scopes.drop d
+    · -- `try { … } catch e { … }`
+      obtain ⟨cbsp, cbty, cstmts, coe⟩ := cb
+      cases coe with
+      | some _ => simp [Frag.okGBS] at hcb
+      | none =>
+      simp only [Frag.okGBS] at hcb
+      simp only [Frag.wsGS, Bool.and_eq_true, beq_iff_eq] at hws
+      obtain ⟨⟨⟨hmain, hself⟩, hwt⟩, hwc⟩ := hws
+      simp only [Frag.identsGS, Frag.identsGBS, List.mem_append, List.mem_cons] at hT
+      rw [evalStmt_exprS]
+      match n, hPE, hPArgsLow, hPL, hPBlow, hPEn, hTry, hPSsLow with
+      | 0, _, _, _, _, _, _, _ => rw [evalExpr]; trivial
+      | m + 1, _, _, _, hPBlow, _, hTry, hPSsLow =>
+      rw [evalExpr_tryE]
+      simp only [cgS, codeVars_append, List.mem_append] at hN hpl ⊢
+      have hcurr : (A.φ A.src).getD "" = A.fn := by rw [hself, hA.fnName]; rfl
+      rw [hcurr] at hN hpl ⊢
+      generalize hExc : freshLabel G.mod env.lm "exception_label" = exc at hN hpl hwt hwc ⊢
+      generalize hAft : freshLabel G.mod exc.2 "after_catch_label" = aft at hN hpl hwt hwc ⊢
+      generalize hCt : cgBS G.mod A.src A.φ [] tb { env with lm := aft.2 } = ct at hN hpl hwc ⊢
+      generalize hFv : freshVar G.mod { ct.2 with scopes := [] :: ct.2.scopes } ci = fv at hN hpl hwc ⊢
+      generalize hCc : cgSs G.mod A.src A.φ loops cstmts fv.2 = cc at hN hpl ⊢
+      -- placement
+      obtain ⟨h4, hplAft⟩ := hpl.append
+      obtain ⟨h3, hplC⟩ := h4.append
+      obtain ⟨h2, hplM⟩ := h3.append
+      obtain ⟨hplS, hplB⟩ := h2.append
+      obtain ⟨iset0, _⟩ := hplS.instr (i := .setTry A.fn exc.1) rfl
+      obtain ⟨ipop1, hM1⟩ := hplM.instr (i := .popTry) rfl
+      obtain ⟨ijmp, hM2⟩ := hM1.instr (i := .jump aft.1) rfl
+      obtain ⟨eexc, hM3⟩ := hM2.label
+      obtain ⟨isetv, hM4⟩ := hM3.instr (i := .setVar fv.1) rfl
+      obtain ⟨ipop2, _⟩ := hM4.instr (i := .popTry) rfl
+      obtain ⟨eaft, _⟩ := hplAft.label
+      have hnS : nI [((Instr.setTry A.fn exc.1 : SInstr), tsp)] = 1 := rfl
+      have hnM : nI [((Instr.popTry : SInstr), tsp), (.jump aft.1, tsp), (.label exc.1, tsp), (.setVar fv.1, tsp),
+          (.popTry, tsp)] = 4 := rfl
+      simp only [nI_append, hnS, hnM] at hplB ipop1 ijmp eexc isetv ipop2 hplC eaft ⊢
+      simp only [← Nat.add_assoc] at ipop1 ijmp eexc isetv ipop2 hplC eaft
+      have hnL : nI [((Instr.label aft.1 : SInstr), tsp)] = 0 := rfl
+      rw [hnL, Nat.add_zero]
+      -- static facts about the environments
+      have hscT : ct.2.scopes = env.scopes := by rw [← hCt, cgBS_scopes]
+      have hvmT : ∀ k, cnt env.vm k ≤ cnt ct.2.vm k := fun k => by
+        rw [← hCt]; exact cgBS_vm_mono G.mod A.src A.φ [] tb { env with lm := aft.2 } k
+      have hfvsc : fv.2.scopes.tail = ct.2.scopes := by rw [← hFv]; simp [freshVar]
+      have hccT : cc.2.scopes.tail = env.scopes := by
+        rw [← hCc, cgSs_tail, hfvsc, hscT]
+      have hvmC : ∀ k, cnt ct.2.vm k ≤ cnt cc.2.vm k := fun k => by
+        have h1 := cnt_freshVar G.mod { ct.2 with scopes := [] :: ct.2.scopes } ci k
+        rw [hFv] at h1
+        have h2 := (cgS_vm_mono G.mod A.src A.φ (Frag.depthGSs cstmts)).2.1 loops cstmts fv.2 (Nat.le_refl _) k
+        rw [hCc] at h2
+        have h1' : cnt ct.2.vm k ≤ cnt fv.2.vm k := by
+          rw [h1]; simp only []; split <;> (try subst_vars) <;> omega
+        exact Nat.le_trans h1' h2
+      -- the body, under the handler
+      have hA' := hA.withH (tryHandler G A (A.lab exc.1) stk :: G.s.handlers) false
+      have hB := hTry m rfl (tryHandler G A (A.lab exc.1) stk :: G.s.handlers) _ hA' [] env.scopes 0 tb
+        { env with lm := aft.2 } spec (ip + 1) stk mem htb (fun x hx => hT x (Or.inl hx)) hwt
+        (fun mm hm => hN mm (Or.inl (Or.inl (Or.inl (Or.inr (hCt ▸ hm)))))) (hCt ▸ hplB) rfl
+        ⟨hrel.rel, hrel.key⟩ ⟨trivial, hsp.module, hsp.globals, hsp.depth⟩
+      have hB' : SimGS (G.inTry A (A.lab exc.1) stk) { A with rt := false } [] env.scopes 0 (ip + 1)
+          (nI (cgBS G.mod A.src A.φ [] tb { env with lm := aft.2 }).1) stk mem
+          (GRel (G.inTry A (A.lab exc.1) stk) { A with rt := false }
+            (cgBS G.mod A.src A.φ [] tb { env with lm := aft.2 }).2.scopes
+            (cgBS G.mod A.src A.φ [] tb { env with lm := aft.2 }).2.vm) spec
+          (inScope (evalBlock G.cfg m tb) spec) := hB
+      rw [hCt] at hB'
+      rcases hbe : inScope (evalBlock G.cfg m tb) spec with ⟨r1, st1⟩
+      rw [hbe] at hB'
+      cases r1 with
+      | ok u =>
+        simp only []
+        obtain ⟨hfr, mem1, hrunB, hmlB, hrelB⟩ := hB'
+        refine ⟨hfr, mem1, (Runs.tryOk hA iset0 hrunB ipop1 ijmp).cast (by rw [eaft]; omega), hmlB, ?_⟩
+        rw [hccT, ← hscT]
+        exact GRel.vm_mono ⟨hrelB.rel, hrelB.key⟩ hvmC
+      | error ce' =>
+        cases ce'
+        case brk => exact hB'.elim
+        case cont => exact hB'.elim
+        case ret v => exact absurd hB'.1 (by simp)
+        case unsupported => trivial
+        case timeout => trivial
+        case fatal kd fm fsp =>
+          intro hk
+          exact RunsF.tryBody hA iset0 (hB' hk)
+        case throw msg tsp' =>
+          obtain ⟨hfr, mem1, hT1, hmlB, hsr⟩ := hB'
+          simp only []
+          rw [catch_run]
+          have hmod1 : st1.module = "main" := by
+            rw [hfr]; show spec.module = "main"; rw [hsp.module]; exact hmain
+          cases m with
+          | zero => rw [evalBlock]; trivial
+          | succ m' =>
+          rw [evalBlock_stmts]
+          have hPSs := hPSsLow m' rfl
+          -- the VM: dispatch, `Set_Var`, `Pop_Try`
+          have hNv : A.N fv.1 := hN fv.1 (Or.inl (Or.inl (Or.inr (by simp [codeVars, var?]))))
+          have hcell := hA.cell _ hNv
+          have hrunC := Runs.tryCatch hA iset0 hT1 (slot := A.σ fv.1) (by rw [eexc]; exact isetv) (by rw [eexc]; exact ipop2)
+            hcell.1 hcell.2.1
+          -- the specification: the catch block starts in `catchSt`
+          have hst2 := catchSt_frame ci msg tsp' st1
+          generalize catchSt ci msg tsp' st1 = st2 at hst2 ⊢
+          have hw2 : st2.world = ⟨st1.world.heap.push (errCell msg tsp'), st1.world.out⟩ := by
+            rw [hst2, hmod1, errCellOf_main]; rfl
+          rw [← hw2] at hrunC
+          have hsr' : ScopesRel A.T A.σ G.lim A.mp mem1 env.scopes st1.scopes := by
+            have h0 : ScopesRel A.T A.σ G.lim A.mp mem1 env.scopes (st1.scopes.drop 0) := hsr
+            simpa using h0
+          have hrelE : GRel G A env.scopes env.vm st1.scopes mem1 :=
+            ⟨⟨hsr', hrel.rel.nodup, hrel.rel.inN, hrel.rel.named⟩, hrel.key⟩
+          have hrelT : GRel G A ct.2.scopes ct.2.vm st1.scopes mem1 := by
+            rw [hscT]; exact hrelE.vm_mono hvmT
+          have hdecl := GRel.declare (env := { ct.2 with scopes := [] :: ct.2.scopes }) hA hrelT.push ci
+            (hT ci (Or.inr (Or.inl rfl))) (.ref st1.heap.size) (by rw [hFv]; exact hNv)
+          rw [hFv] at hdecl
+          have hsc2 : st2.scopes = declScopes ci (.ref st1.heap.size) ([] :: st1.scopes) := by rw [hst2]
+          have hfr02 : st2 = { spec with scopes := st2.scopes, out := st2.out, heap := st2.heap } := by
+            rw [hst2, hfr]
+          have hsp2 : SpecOK G A.mp st2 := hsp.scopes_out st2 hfr02
+          have hml02 : MemLe (A.mp - (A.nv : Int)) mem
+              (memSetL mem1 (A.mp - (A.σ fv.1 : Int)) (.ref st1.world.heap.size)) :=
+            hmlB.trans (MemLe.set _ _ _ _ hcell.2.2)
+          have hC := hPSs A hA loops lscopes (d + 1) cstmts fv.2 st2 (ip + 1 + nI ct.1 + 4) stk
+            (memSetL mem1 (A.mp - (A.σ fv.1 : Int)) (.ref st1.world.heap.size)) hcb
+            (fun x hx => hT x (Or.inr (Or.inr hx))) hwc
+            (fun mm hm => hN mm (Or.inl (Or.inr (hCc ▸ hm)))) (hCc ▸ hplC) (by omega)
+            (by rw [← List.drop_tail, hfvsc, hscT]; exact hls) (by rw [hsc2]; exact hdecl) hsp2
+          rw [hCc] at hC
+          have hCp := SimGS.popLevel (Q' := GRel G A cc.2.scopes.tail cc.2.vm)
+            (fun ss mm hq => ⟨hq.rel.tail, by rw [hccT]; exact hrel.key⟩) hC
+          rcases hes : evalStmts G.cfg m' cstmts st2 with ⟨r2, st3⟩
+          rw [hes] at hCp
+          have hipC : A.lab exc.1 + 2 = ip + 1 + nI ct.1 + 4 := by rw [eexc]
+          rw [hipC] at hrunC
+          cases r2 with
+          | error c2 =>
+            simp only []
+            exact SimGS.error_after _ hfr02 hrunC hml02 hCp
+          | ok u2 =>
+            simp only [] at hCp ⊢
+            obtain ⟨hfr3, mem3, hrun3, hml3, hq⟩ := hCp
+            refine ⟨?_, mem3, (hrunC.trans hrun3).cast (by omega), hml02.trans hml3, hq⟩
+            rw [hfr3, hfr02]
 
 end HmsProofs.Sim
